@@ -808,6 +808,14 @@ func poolWork(g, n int, seed int64, types []reflect.Type) (digest string, rtFail
 			io.WriteString(h, "MISMATCH")
 			rtFail++
 		}
+		if g%3 == 0 && r.Intn(4) == 0 {
+			// a faulty stream: the writer returns an error after k bytes (compression path)
+			k := 0
+			if r.Intn(2) == 0 {
+				k = r.Intn(size + 3)
+			}
+			note(p.Pack(&c20FailWriter{left: k}, []int{0, 64}[r.Intn(2)]))
+		}
 		held, heldWant, heldErr := into, data, err // looked at again after the pools have been used once more
 		// connection
 		sentCh <- sent{id, data}
@@ -865,8 +873,8 @@ func poolWork(g, n int, seed int64, types []reflect.Type) (digest string, rtFail
 var poolRunNo int
 
 func c20PoolRun(c *Ctx, G, n int, seed int64) {
-	if c20CacheBroken {
-		return // see c20CacheBroken
+	if c20CacheBroken || c20PoolBroken {
+		return // see c20CacheBroken, c20PoolBroken
 	}
 	poolRunNo++
 	var obs string
@@ -1268,6 +1276,12 @@ func replayC20(c *Ctx, op string, args []string) bool {
 		c20QueueSignals(c)
 	case "typeinfo.cache":
 		c20TypeinfoCache(c)
+	case "pool.fail":
+		seed, _ := strconv.ParseInt(m["seed"], 10, 64)
+		c20PoolFailRun(c, c20Atoi(m["G"]), c20Atoi(m["n"]), c20Atoi(m["gmp"]), seed)
+	case "cache.nil":
+		seed, _ := strconv.ParseInt(m["seed"], 10, 64)
+		c20NilRun(c, c20Atoi(m["G"]), c20Atoi(m["R"]), c20Atoi(m["gmp"]), seed)
 	case "cache.fold":
 		seed, _ := strconv.ParseInt(m["seed"], 10, 64)
 		c20FoldRun(c, c20Atoi(m["G"]), c20Atoi(m["n"]), c20Atoi(m["T"]), c20Atoi(m["gmp"]), seed)
@@ -1313,6 +1327,18 @@ func genC20(c *Ctx) {
 	for i := 0; i < c.N(400, 4000); i++ {
 		c20GenFind(c)
 	}
+	// the encoder's zero-never-ends memo: G goroutines' first use of a fresh type family is a nil pointer
+	for i := 0; i < c.N(4, 16); i++ {
+		ncpu := runtime.NumCPU()
+		gmp := []int{ncpu, 4, 8, 2}[i%4]
+		if gmp > ncpu {
+			gmp = ncpu
+		}
+		if gmp < 2 {
+			gmp = 2
+		}
+		c20NilRun(c, []int{8, 16, 8, 4}[i%4], c.N(60, 300), gmp, c.R.Int63n(1<<40))
+	}
 	// k ≥ 2 consumers verified parked, then back-to-back pushes / a barrier of producers / Close
 	for i := 0; i < c.N(600, 6000) && c20ConfirmedHangs < 2; i++ {
 		c20QRun(c, genParkCfg(c.R, i))
@@ -1349,6 +1375,11 @@ func genC20(c *Ctx) {
 	for i := 0; locksOK && i < c.N(100, 800); i++ {
 		capN := []int{-1, 0, 1, 2, 5, 10, 11, 50}[c.R.Intn(8)]
 		c20PlRun(c, capN, 2+c.R.Intn(15), c.N(200, 1000), c.R.Int63n(1<<40))
+	}
+	// pools: streams whose writer fails, next to healthy streams that hold their pooled buffer across yields
+	for i := 0; i < c.N(8, 40); i++ {
+		gmp := []int{2, 4, 8, 1}[i%4]
+		c20PoolFailRun(c, []int{16, 24, 32, 8}[i%4], c.N(400, 1500), gmp, c.R.Int63n(1<<40))
 	}
 	// pools
 	for i := 0; i < c.N(6, 40); i++ {
